@@ -90,6 +90,7 @@ func runC20(r *engine.Run) {
 	snapshotCollects(r, "SNAPSHOT-all")
 	writeAtRoot(r, "AGREE-share")
 	whoReorder(r, "WHO-reorder")
+	shareLevel(r, "AGREE-share")
 }
 
 // sameCore: within one function, the core whose mu is locked is the core
